@@ -41,6 +41,9 @@ def run(eng, rep) -> None:
     rep.rule("R02.5", "two's complement sign reconstruction")
     rep.rule("R02.6", "C++ side (clang AST of requested instantiations): wrapper Encode/Decode grammars == canonical; fcp::Buffer per-bit LSB-first mapping, cursor advance by width, no lossy sub-byte shift")
     rep.rule("R02.7", "a test of the consumed bit count against the input length that raises rounds the bits up to whole bytes (zero padding in the last byte is canonical)")
+    rep.rule("R02.9", "a key that stands for a schema type on the codec path reads every field that tells two types apart")
+    from .lints import type_identity_keys
+    type_identity_keys(eng, rep, "R02.9", ("fcp.serde",))
     rep.rule("R02.8", "a smallest-size function used in a rejecting guard is a true lower bound (absent Optional: 8 bits, empty string / dynamic array: 32 bits)")
     rep.assume("struct native 'f'/'d' = IEEE-754 little-endian on the host; ASCII restriction of strings is not checked")
     cc = find_cursor_class(eng)
